@@ -33,6 +33,16 @@ func genC32(r *sim.Rand, tier string) *sim.Case {
 	c.Cfg["tasks"] = int64(ntasks)
 	c.Cfg["window"] = int64(window)
 	c.Cfg["sticky"] = int64(r.Pick(0, 2, 4, 8))
+	// 1 in 3: one long preemption of one task, either where it found the window
+	// too small and is about to rebuild it, or at its n-th scheduling point
+	if r.Intn(3) == 0 {
+		c.Cfg["hold_task"] = int64(r.Intn(ntasks))
+		c.Cfg["hold_site"] = int64(r.Intn(2))
+		c.Cfg["hold_nth"] = int64(1 + r.Intn(3))
+		if c.Cfg["hold_site"] == 0 {
+			c.Cfg["hold_nth"] = int64(1 + r.Intn(40))
+		}
+	}
 	wsz := window
 	if wsz == 0 {
 		wsz = 8
